@@ -14,12 +14,13 @@ pub mod c13;
 pub mod c14;
 pub mod c18;
 pub mod c19;
+pub mod c20;
 pub mod wire;
 pub mod peer;
 pub mod common;
 
 pub fn ids() -> Vec<&'static str> {
-    vec!["C01", "C02", "C03", "C04", "C06", "C07", "C08", "C09", "C10", "C13", "C14", "C18", "C19"]
+    vec!["C01", "C02", "C03", "C04", "C06", "C07", "C08", "C09", "C10", "C13", "C14", "C18", "C19", "C20"]
 }
 pub fn get(id: &str) -> Option<Box<dyn Check>> {
     match id {
@@ -36,6 +37,7 @@ pub fn get(id: &str) -> Option<Box<dyn Check>> {
         "C14" => Some(Box::new(c14::C14)),
         "C18" => Some(Box::new(c18::C18)),
         "C19" => Some(Box::new(c19::C19)),
+        "C20" => Some(Box::new(c20::C20)),
         _ => None,
     }
 }
